@@ -127,9 +127,14 @@ class Run:
         (DESIGN 3.5 engine B).  Never counted as proved; a failing case is a genuine failing input."""
         kf = [k for k in load_known() if k.get('status') == 'open' and k['property'] == self.prop and k['unit'] == unit.name and k['check'] == check.name]
         src = ''.join('#define %s 1\n' % k['carve_define'] for k in kf) + check.native
-        exe = build_native(unit, inst, self.wd, src, 'native_' + check.name)
+        exe = build_native(unit, inst, self.wd, src, 'native_' + check.name, sanitize='sanitize' in check.flags)
         t0 = time.time()
         rc, out, err, secs = sh([exe, 'tier=' + self.tier, 'seed=%d' % self.seed], timeout=check.timeout or 900, mem_kb=None)
+        if 'ERROR: AddressSanitizer' in (out + err) or 'runtime error:' in (out + err):
+            out += '\nCLAUSE sanitizer FAIL 1 undefined behaviour / memory error reported by the sanitizers: %s\nFAILCASE %s\n' % (
+                re.sub(r'\s+', ' ', (re.search(r'[^\n]*(runtime error|AddressSanitizer)[^\n]*', out + err) or [''])[0])[:200], re.sub(r'\s+', ' ', (re.search(r'[^\n]*(runtime error|AddressSanitizer)[^\n]*', out + err) or [''])[0])[:200])
+            if 'NATIVE cases=' not in out:
+                out += 'NATIVE cases=1 window=aborted by the sanitizer\n'
         m = re.search(r'NATIVE cases=(\d+) window=(.*)', out)
         if not m:
             raise Undecided('native bounded check %s produced no summary: %s' % (check.name, (out + err)[-500:]))
